@@ -1,0 +1,23 @@
+//go:build verif
+// +build verif
+
+package wal
+
+import (
+	badger "github.com/dgraph-io/badger/v2"
+	uuid "github.com/satori/go.uuid"
+)
+
+// VerifIOHook is called by the simulation harness's build (tag "verif")
+// immediately before and immediately after every durable write of the raft
+// log store: op is "save", "snapshot", "reset" or "raftid". Before a write the
+// hook may return an error (injected I/O error) or never return (the node
+// "crashes" here). It is the durable-write boundary of the simulated disk.
+var VerifIOHook func(db *badger.DB, group uuid.UUID, op string, before bool) error
+
+func verifIO(db *badger.DB, group uuid.UUID, op string, before bool) error {
+	if VerifIOHook == nil {
+		return nil
+	}
+	return VerifIOHook(db, group, op, before)
+}
